@@ -193,122 +193,163 @@ def _in_domain(transform, x_now, x_lag):
     return x_lag != 0
 
 
-def check(spec, params, T, inp, out, cells, nv, shocks_from_data=True, rep=None):
+def _cell_order(n_eq, T, order):
+    if order == "equations_dates":
+        return [(i, k) for i in range(n_eq) for k in range(T)]
+    return [(i, k) for k in range(T) for i in range(n_eq)]
+
+
+def check(spec, params, T, inp, out, cells, nv, shocks_from_data=True, order="dates_equations", rep=None):
+    """Cells are visited in the execution order; a cell whose own evaluation is not finite (domain error, overflow,
+    missing input) is UNDEFINED, and so is every later cell that reads it: those are inconclusive, whatever the
+    output databox shows there."""
     rep = rep or Report()
     eqs = spec["equations"]
     lhs_names = {e["lhs"] for e in eqs}
     res_names = {"res_" + e["lhs"] for e in eqs if not e.get("identity")}
+    static_refs = [E.refs(e["rhs"]) for e in eqs]
 
     for v in range(nv):
         P = params[v] if v < len(params) else params[-1]
+        undefined = set()   # (lhs name, k) inside the span
 
-        for i, eq in enumerate(eqs):
+        for i, k in _cell_order(len(eqs), T, order):
+            eq = eqs[i]
             x = eq["lhs"]
             tr = eq["transform"]
             ident = bool(eq.get("identity"))
             res = None if ident else "res_" + x
             lagged = tr in E.LAGGED_TRANSFORMS
-            for k in range(T):
-                def read(name, shift, k=k, v=v):
-                    kk = k + shift
-                    if 0 <= kk < T and name in out:
-                        return out.get(name, kk, v)
-                    return inp.get(name, kk, v)
 
-                where = {"equation": i, "lhs": x, "transform": tr, "k": k, "variant": v}
-                cell = None if ident else cells.get((x, k))
-                exo = False
-                datum = E.NAN
-                if cell is not None:
-                    kind, wd = cell
-                    datum = inp.get(E.PLAN_PREFIX[kind] + x, k, v)
-                    if datum != datum:
-                        if not wd:
-                            rep.inconc["exogenized-point-without-datum"] += 1
-                            continue
-                    else:
-                        exo = True
-                st = E.Scale()
-                rhs = E.ev(eq["rhs"], read, P, st)
-                x_now = st.see(read(x, 0))
-                x_lag = st.see(read(x, -1)) if (lagged or (exo and cell[0] in E.LAGGED_TRANSFORMS)) else 0.0
-                if not _finite(rhs) or not _finite(x_lag):
-                    rep.inconc["rhs-or-lag-not-finite"] += 1
-                    continue
-                if lagged and not _in_domain(tr, 1.0, x_lag):
-                    rep.inconc["lag-outside-transform-domain"] += 1
-                    continue
-                if ident:
-                    r_out = 0.0
-                    r_in = 0.0
+            def read(name, shift, k=k, v=v):
+                kk = k + shift
+                if 0 <= kk < T and (name in lhs_names or name in out):
+                    return out.get(name, kk, v)
+                return inp.get(name, kk, v)
+
+            where = {"equation": i, "lhs": x, "transform": tr, "k": k, "variant": v}
+            cell = None if ident else cells.get((x, k))
+            exo = False
+            datum = E.NAN
+            if cell is not None:
+                kind, wd = cell
+                datum = inp.get(E.PLAN_PREFIX[kind] + x, k, v)
+                if datum != datum:
+                    if not wd:
+                        rep.inconc["exogenized-point-without-datum"] += 1
+                        undefined.add((x, k))
+                        continue
                 else:
-                    r_out = out.get(res, k, v)
-                    r_in = inp.get(res, k, v) if shocks_from_data else 0.0
-                    if r_in != r_in:
-                        r_in_eff, r_in_given = 0.0, False
-                    else:
-                        r_in_eff, r_in_given = r_in, True
-                st.see(r_out)
+                    exo = True
+            need_lag = lagged or (exo and cell[0] in E.LAGGED_TRANSFORMS)
+            reads_undefined = any((n, k + s) in undefined for n, s in static_refs[i])
+            lag_undefined = need_lag and (x, k - 1) in undefined
+            st = E.Scale()
+            rhs = E.ev(eq["rhs"], read, P, st)
+            x_now = st.see(read(x, 0))
+            x_lag = st.see(read(x, -1)) if need_lag else 0.0
+            if ident:
+                r_out = 0.0
+                r_in = 0.0
+                r_in_eff, r_in_given = 0.0, False
+            else:
+                r_out = out.get(res, k, v)
+                r_in = inp.get(res, k, v) if shocks_from_data else 0.0
+                if r_in != r_in:
+                    r_in_eff, r_in_given = 0.0, False
+                else:
+                    r_in_eff, r_in_given = r_in, True
+            st.see(r_out)
 
-                if exo:
-                    kind = cell[0]
-                    implied = E.implied_level(kind, datum, x_lag)
-                    if not _finite(implied) or not _in_domain(tr, implied, x_lag):
-                        rep.inconc["exogenized-value-outside-transform-domain"] += 1
-                        continue
-                    opclass = f"exogenized:{kind}" + ("?" if cell[1] else "") + f"->{tr}"
-                    tol_x = RTOL * (1.0 + abs(implied) + abs(x_lag) + abs(datum))
-                    if not abs(x_now - implied) <= tol_x:
-                        rep.problem(f"exogenized:lhs-not-implied-value:{kind}",
-                                    f"{x}[k={k}] = {x_now!r} but the exogenized {kind} datum {datum!r} implies {implied!r}",
-                                    dict(where, kind=kind, datum=datum, implied=implied, got=x_now, lag=x_lag))
-                    tv = st.see(E.transform_value(tr, x_now, x_lag, st))
-                    tol = RTOL * (1.0 + st.v)
-                    disc = tv - (rhs + r_out)
-                    rep.cells[opclass] += 1
-                    if abs(disc) <= tol:
-                        rep.max_rel = max(rep.max_rel, abs(disc) / (1.0 + st.v))
-                        continue
-                    detail = dict(where, kind=kind, lhs_transform_value=tv, rhs_without_residual=rhs, residual_out=r_out,
-                                  residual_in=r_in_eff, discrepancy=disc, tol=tol)
-                    if r_in_eff != 0.0 and abs(disc - r_in_eff) <= KNOWN_RTOL * (1.0 + st.v):
-                        rep.problem("exogenized:residual-ignores-input-residual",
-                                    f"exogenized {x}[k={k}]: {tr}(lhs) - rhs - residual = {disc!r} = the input residual {r_in_eff!r}; "
-                                    f"the output residual {r_out!r} was computed net of the residual already in the data",
-                                    detail)
-                    else:
-                        rep.problem(f"exogenized:equation-violated:{tr}",
-                                    f"exogenized {x}[k={k}]: {tr}(lhs)={tv!r} rhs={rhs!r} residual_out={r_out!r} discrepancy={disc!r} (tol {tol:.3g})",
-                                    detail)
+            if exo:
+                kind = cell[0]
+                if lag_undefined or not _finite(x_lag):
+                    rep.inconc["exogenized:lag-undefined"] += 1
+                    undefined.add((x, k))
                     continue
-
-                # ordinary simulated point
+                implied = E.implied_level(kind, datum, x_lag)
+                if not _finite(implied):
+                    rep.inconc["exogenized:implied-level-not-finite"] += 1
+                    undefined.add((x, k))
+                    continue
+                opclass = f"exogenized:{kind}" + ("?" if cell[1] else "") + f"->{tr}"
+                tol_x = RTOL * (1.0 + abs(implied) + abs(x_lag) + abs(datum))
+                rep.cells["exogenized-level:" + kind] += 1
+                if not abs(x_now - implied) <= tol_x:
+                    rep.problem(f"exogenized:lhs-not-implied-value:{kind}",
+                                f"{x}[k={k}] = {x_now!r} but the exogenized {kind} datum {datum!r} implies {implied!r}",
+                                dict(where, kind=kind, datum=datum, implied=implied, got=x_now, lag=x_lag))
+                if reads_undefined or not _finite(rhs) or not _in_domain(tr, implied, x_lag):
+                    rep.inconc["exogenized:equation-not-evaluable"] += 1
+                    continue
                 tv = st.see(E.transform_value(tr, x_now, x_lag, st))
                 tol = RTOL * (1.0 + st.v)
                 disc = tv - (rhs + r_out)
-                opclass = ("identity:" if ident else "equation:") + tr
-                if cell is not None:
-                    opclass = f"when_data-missing:{cell[0]}->{tr}"
                 rep.cells[opclass] += 1
                 if abs(disc) <= tol:
                     rep.max_rel = max(rep.max_rel, abs(disc) / (1.0 + st.v))
+                    continue
+                detail = dict(where, kind=kind, lhs_transform_value=tv, rhs_without_residual=rhs, residual_out=r_out,
+                              residual_in=r_in_eff, discrepancy=disc, tol=tol)
+                if r_in_eff != 0.0 and abs(disc - r_in_eff) <= KNOWN_RTOL * (1.0 + st.v):
+                    rep.problem("exogenized:residual-ignores-input-residual",
+                                f"exogenized {x}[k={k}]: {tr}(lhs) - rhs - residual = {disc!r} = the input residual {r_in_eff!r}; "
+                                f"the output residual {r_out!r} was computed net of the residual already in the data",
+                                detail)
                 else:
-                    key = ("identity-violated:" if ident else "equation-violated:") + tr
-                    if cell is not None:
-                        key = "when_data-missing:" + key
-                    rep.problem(key,
-                                f"{x}[k={k}] variant {v}: {tr}(lhs)={tv!r} but rhs+residual={rhs + r_out!r} (rhs={rhs!r}, residual={r_out!r}, "
-                                f"lhs level={x_now!r}, discrepancy={disc!r}, tol {tol:.3g})",
-                                dict(where, lhs_transform_value=tv, rhs_without_residual=rhs, residual_out=r_out, level=x_now,
-                                     lag=x_lag, discrepancy=disc, tol=tol))
-                if not ident and shocks_from_data and r_in_given:
-                    rep.cells["residual-kept"] += 1
-                    if not r_out == r_in:
-                        rep.problem("residual-changed-at-non-exogenized-point",
-                                    f"{res}[k={k}] variant {v}: input {r_in!r}, output {r_out!r}",
-                                    dict(where, residual_in=r_in, residual_out=r_out))
+                    rep.problem(f"exogenized:equation-violated:{tr}",
+                                f"exogenized {x}[k={k}]: {tr}(lhs)={tv!r} rhs={rhs!r} residual_out={r_out!r} discrepancy={disc!r} (tol {tol:.3g})",
+                                detail)
+                continue
 
-    # ---- data that simulate has no business changing
+            # ordinary simulated point
+            if reads_undefined or lag_undefined:
+                rep.inconc["depends-on-undefined-cell"] += 1
+                undefined.add((x, k))
+                continue
+            if not _finite(rhs) or not _finite(x_lag):
+                rep.inconc["rhs-or-lag-not-finite"] += 1
+                undefined.add((x, k))
+                continue
+            if lagged and not _in_domain(tr, 1.0, x_lag):
+                rep.inconc["lag-outside-transform-domain"] += 1
+                undefined.add((x, k))
+                continue
+            if _finite(r_out):
+                level = E.implied_level(tr, rhs + r_out, x_lag)
+                if not _finite(level) or (tr in ("log", "diff_log") and abs(level) < 1e-290):
+                    rep.inconc["level-not-representable(overflow/underflow)"] += 1
+                    undefined.add((x, k))
+                    continue
+            tv = st.see(E.transform_value(tr, x_now, x_lag, st))
+            tol = RTOL * (1.0 + st.v)
+            disc = tv - (rhs + r_out)
+            opclass = ("identity:" if ident else "equation:") + tr
+            if cell is not None:
+                opclass = f"when_data-missing:{cell[0]}->{tr}"
+            rep.cells[opclass] += 1
+            if abs(disc) <= tol:
+                rep.max_rel = max(rep.max_rel, abs(disc) / (1.0 + st.v))
+            else:
+                key = ("identity-violated:" if ident else "equation-violated:") + tr
+                if cell is not None:
+                    key = "when_data-missing:" + key
+                rep.problem(key,
+                            f"{x}[k={k}] variant {v}: {tr}(lhs)={tv!r} but rhs+residual={rhs + r_out!r} (rhs={rhs!r}, residual={r_out!r}, "
+                            f"lhs level={x_now!r}, discrepancy={disc!r}, tol {tol:.3g})",
+                            dict(where, lhs_transform_value=tv, rhs_without_residual=rhs, residual_out=r_out, level=x_now,
+                                 lag=x_lag, discrepancy=disc, tol=tol))
+                if not _finite(x_now):
+                    undefined.add((x, k))
+            if not ident and shocks_from_data and r_in_given:
+                rep.cells["residual-kept"] += 1
+                if not r_out == r_in:
+                    rep.problem("residual-changed-at-non-exogenized-point",
+                                f"{res}[k={k}] variant {v}: input {r_in!r}, output {r_out!r}",
+                                dict(where, residual_in=r_in, residual_out=r_out))
+
+    # ---- data that simulate has no business changing (one event per series, variant and class, not per period)
+    compared = set()
     for name in out.names():
         if name not in inp:
             continue
@@ -325,9 +366,11 @@ def check(spec, params, T, inp, out, cells, nv, shocks_from_data=True, rep=None)
                     continue
                 b = out.get(name, k, v)
                 cls = "rhs-only-inside-span" if inside else "outside-span"
-                rep.cells["untouched:" + cls] += 1
+                compared.add((name, v, cls))
                 if not a == b:
                     rep.problem(f"input-data-changed:{cls}",
                                 f"{name}[k={k}] variant {v}: input {a!r}, output {b!r}",
                                 {"name": name, "k": k, "variant": v, "input": a, "output": b})
+    for _, _, cls in compared:
+        rep.cells["untouched:" + cls] += 1
     return rep
